@@ -1710,6 +1710,9 @@ func (e *Enc) mapValueInv(st *bstate, mt *types.Map, k, v string) string {
 		if pkg == nil {
 			continue // package not part of this program
 		}
+		if !mi.appliesTo(fnDisplay(e.fn)) {
+			continue
+		}
 		t, err := e.evalType(mi.TypeText, pkg)
 		if err != nil {
 			e.errors = append(e.errors, fmt.Sprintf("%s: mapvalues: %v", mi.Src, err))
@@ -1774,6 +1777,9 @@ func (e *Enc) elemValueInv(st *bstate, el types.Type, v string) string {
 	for _, mi := range e.P.reg.ElemInvs {
 		pkg := e.P.tpkgs[mi.Pkg]
 		if pkg == nil {
+			continue
+		}
+		if !mi.appliesTo(fnDisplay(e.fn)) {
 			continue
 		}
 		t, err := e.evalType(mi.TypeText, pkg)
